@@ -34,7 +34,7 @@ ASSUMPTIONS = [
     'POST /media/inspect needs Flask\'s optional async support (asgiref), absent from this environment: its RuntimeError is not judged; the outbound-fetch url field is never used (no network)',
     'shims + werkzeug test client as HTTP boundary',
 ]
-REQUIRED_COUNTERS = ['a.requests', 'a.path_requests', 'a.options_covered', 'b.parser_inputs', 'b.http_uploads', 'c.sequences',
+REQUIRED_COUNTERS = ['a.requests', 'a.path_requests', 'd.requests', 'a.options_covered', 'b.parser_inputs', 'b.http_uploads', 'c.sequences',
                      'c.synthetic_seen', 'reach.check_for_synthetic_http_error', 'reach.calculate_injected_error_segments',
                      'reach.load']
 
@@ -360,38 +360,7 @@ class Fuzz:
                     continue
             for op, mutated in self.mutations(data, rng, per):
                 for lazy in (False, True):
-                    res.count('b.parser_inputs')
-                    rp = {'b': {'corpus': cname, 'operator': op, 'lazy': lazy, 'hex': mutated.hex() if len(mutated) < 6000 else None}}
-
-                    def parse():
-                        opts = mp4.Options(mode='r', lazy_load=lazy)
-                        atoms = mp4.Mp4Atom.load(BufferedReader(None, data=mutated), options=opts, use_wrapper=True)
-                        if lazy:
-                            atoms.toJSON(pure=True)       # touch every lazily loaded box
-                        return atoms
-                    tracemalloc.start()
-                    try:
-                        outcome, value = guard.run_with_wall(lambda: self._catch(parse), 15.0)
-                        _cur, peak = tracemalloc.get_traced_memory()
-                    finally:
-                        tracemalloc.stop()
-                    cls = 'returned'
-                    if outcome == 'timeout':
-                        r2 = guard.run_with_wall(lambda: guard.run_with_line_budget(lambda: self._catch(parse), 40_000_000), 300.0)
-                        if r2[0] == 'ok' and r2[1][0] == 'exceeded':
-                            res.violation('parser-does-not-terminate', f'{cname} {op} lazy={lazy}: > 40,000,000 events\n{r2[1][1][-700:]}', rp)
-                            cls = 'hang'
-                        else:
-                            res.inconclusive.append(f'parser watchdog fired but finished within budget: {cname} {op}')
-                    elif isinstance(value, BaseException) and not isinstance(value, Exception):
-                        res.violation(f'parser-raises-{type(value).__name__}', f'{cname} {op} lazy={lazy}: {value!r}', rp)
-                        cls = 'baseexception'
-                    elif isinstance(value, Exception):
-                        cls = 'raised-' + type(value).__name__
-                    if peak > 64 * len(mutated) + 64 * 2**20:
-                        res.violation('parser-unbounded-allocation',
-                                      f'{cname} {op} lazy={lazy}: {peak} bytes traced for a {len(mutated)} byte input', rp)
-                    res.case(f'B|parser|{cname}|{op.split("@")[0]}|{"lazy" if lazy else "eager"}|{cls}')
+                    self.judge_parse(cname, op, lazy, mutated)
                 if ctx.out_of_time():
                     break
         # ---- HTTP: upload -> index -> serve
@@ -421,6 +390,44 @@ class Fuzz:
                 self.request('GET', url, 'b', f'after upload {op}', rp, client=media.client)
             if ctx.out_of_time():
                 break
+
+    def judge_parse(self, cname: str, op: str, lazy: bool, mutated: bytes) -> None:
+        from dashlive.mpeg import mp4
+        from dashlive.utils.buffered_reader import BufferedReader
+        from dlv import guard
+        res = self.res
+        res.count('b.parser_inputs')
+        rp = {'b': {'corpus': cname, 'operator': op, 'lazy': lazy, 'hex': mutated.hex() if len(mutated) < 6000 else None}}
+
+        def parse():
+            opts = mp4.Options(mode='r', lazy_load=lazy)
+            atoms = mp4.Mp4Atom.load(BufferedReader(None, data=mutated), options=opts, use_wrapper=True)
+            if lazy:
+                atoms.toJSON(pure=True)       # touch every lazily loaded box
+            return atoms
+        tracemalloc.start()
+        try:
+            outcome, value = guard.run_with_wall(lambda: self._catch(parse), 15.0)
+            _cur, peak = tracemalloc.get_traced_memory()
+        finally:
+            tracemalloc.stop()
+        cls = 'returned'
+        if outcome == 'timeout':
+            r2 = guard.run_with_wall(lambda: guard.run_with_line_budget(lambda: self._catch(parse), 40_000_000), 300.0)
+            if r2[0] == 'ok' and r2[1][0] == 'exceeded':
+                res.violation('parser-does-not-terminate', f'{cname} {op} lazy={lazy}: > 40,000,000 events\n{r2[1][1][-700:]}', rp)
+                cls = 'hang'
+            else:
+                res.inconclusive.append(f'parser watchdog fired but finished within budget: {cname} {op}')
+        elif isinstance(value, BaseException) and not isinstance(value, Exception):
+            res.violation(f'parser-raises-{type(value).__name__}', f'{cname} {op} lazy={lazy}: {value!r}', rp)
+            cls = 'baseexception'
+        elif isinstance(value, Exception):
+            cls = 'raised-' + type(value).__name__
+        if peak > 64 * len(mutated) + 64 * 2**20:
+            res.violation('parser-unbounded-allocation',
+                          f'{cname} {op} lazy={lazy}: {peak} bytes traced for a {len(mutated)} byte input', rp)
+        res.case(f'B|parser|{cname}|{op.split("@")[0]}|{"lazy" if lazy else "eager"}|{cls}')
 
     @staticmethod
     def _catch(fn):
@@ -567,6 +574,114 @@ class Fuzz:
                 done_pos.add(nn)
 
 
+# ------------------------------------------------------------------ (D) management operations
+JSON_VALUES = [None, '', 0, -1, 1.5, True, [], {}, [1], {'a': 1}, 'x' * 2000, '99999999999999999999', 2**63, 'é中', '%00',
+               'PT-5S', 'P1Y', '2024-13-45T99:99:99Z', '../..', 'a/b', ' ']
+
+
+def mutate_fields(rng, fields):
+    """-> (new fields, description): one value anywhere in the (nested) body replaced, removed or duplicated"""
+    import copy
+    out = copy.deepcopy(fields)
+    paths = []
+
+    def walk(node, path):
+        if isinstance(node, dict):
+            for k, v in node.items():
+                paths.append(path + [k])
+                walk(v, path + [k])
+        elif isinstance(node, list):
+            for i, v in enumerate(node):
+                paths.append(path + [i])
+                walk(v, path + [i])
+    walk(out, [])
+    if not paths:
+        return out, 'no-fields'
+    path = rng.choice(paths)
+    node = out
+    for k in path[:-1]:
+        node = node[k]
+    how = rng.choice(['replace', 'replace', 'replace', 'remove'])
+    if how == 'remove':
+        del node[path[-1]]
+        return out, f'remove {path}'
+    val = rng.choice(JSON_VALUES)
+    node[path[-1]] = val
+    return out, f'{path} := {val!r:.40}'
+
+
+def replay_d(ctx: ShardCtx, res: ShardResult, d: dict) -> None:
+    from dlv.checks import c15
+    from dlv.mgmt import execute
+    w = c15.World(ctx)
+    try:
+        w.env.clock.set(NOW)
+        op = dict(d['op'])
+        if op.get('token'):
+            op['token'] = tuple(op['token'])
+        r = execute(w.sessions[d['role']], w.harvest[d['role']], op)
+        res.evaluations += 1
+        res.count('d.requests')
+        if r.status_code >= 500:
+            info = w.env.rec.last_exception or {}
+            res.violation(f'5xx-{info.get("type", "unknown")}-in-{exc_site(info)}-management-{op["name"]}',
+                          f'{op["method"]} {op["url"]} as {d["role"]} -> {r.status_code}: {info.get("repr", "")[:200]}', {'d': d})
+    finally:
+        w.close()
+
+
+def part_d(ctx: ShardCtx, res: ShardResult) -> None:
+    """every management operation of the catalogue, sent by an authorised user with one field of its
+    body type-confused, removed or out of range: any 5xx / unhandled exception is a violation"""
+    from dlv.checks import c15
+    from dlv.mgmt import execute
+    rng = ctx.rng
+    w = c15.World(ctx)
+    try:
+        w.env.clock.set(NOW)
+        n = ctx.scale(400, 20000)
+        dirty = 0
+        for i in range(n):
+            ops = c15.catalogue(w, rng)
+            op = dict(rng.choice(ops))
+            if op.get('fields'):
+                kind = op.get('kind')
+                fields, what = mutate_fields(rng, op['fields'])
+                if kind != 'json':
+                    # form fields are strings
+                    fields = {k: ('' if v is None else v if isinstance(v, (str, list)) else str(v)) for k, v in fields.items()
+                              if not isinstance(v, dict)}
+                op['fields'] = fields
+            else:
+                what = 'unchanged'
+                if rng.random() < 0.7:
+                    continue
+            role = 'admin' if op['needs'].startswith('admin') or rng.random() < 0.3 else 'media'
+            rp = {'d': {'op': {k: v for k, v in op.items() if k != 'file'}, 'what': what, 'role': role}}
+            try:
+                r = execute(w.sessions[role], w.harvest[role], op)
+            except Exception as err:
+                res.count('d.client_refused')
+                continue
+            res.count('d.requests')
+            res.evaluations += 1
+            status = r.status_code
+            res.case(f'D|{op["name"]}|{what.split(" := ")[0][:40]}|{status // 100}xx')
+            if status >= 500:
+                info = w.env.rec.last_exception or {}
+                res.violation(f'5xx-{info.get("type", "unknown")}-in-{exc_site(info)}-management-{op["name"]}',
+                              f'{op["method"]} {op["url"]} ({what}) as {role} -> {status}: {info.get("repr", "")[:200]}', rp,
+                              traceback=info.get('traceback'))
+            dirty += 1
+            if dirty >= 25:
+                w.reset()
+                dirty = 0
+            if i % 20 == 0 and ctx.out_of_time():
+                break
+    finally:
+        w.close()
+
+
 def run_shard(ctx: ShardCtx) -> ShardResult:
     from dlv.reach import Reach
     res = ShardResult()
@@ -588,10 +703,19 @@ def run_shard(ctx: ShardCtx) -> ShardResult:
                 fz.env.clock.set(datetime.datetime.fromisoformat(r['a']['now']))
                 fz.request('GET', r['a']['url'], 'a', 'replay', r)
                 res.evaluations += 1
+            elif 'b' in r and r['b'].get('hex') and 'corpus' in r['b']:
+                fz.judge_parse(r['b']['corpus'], r['b']['operator'], bool(r['b']['lazy']), bytes.fromhex(r['b']['hex']))
+                res.evaluations += 1
+            elif 'd' in r:
+                replay_d(ctx, res, r['d'])
+            else:
+                res.notes.append('replay of upload / sequence cases re-runs the recorded steps by hand: see the replay file')
         else:
-            ctx.budget_s = total * 0.2
+            ctx.budget_s = total * 0.15
             fz.part_c()
-            ctx.budget_s = total * 0.55
+            ctx.budget_s = total * 0.3
+            part_d(ctx, res)
+            ctx.budget_s = total * 0.6
             fz.part_b()
             ctx.budget_s = total
             fz.part_a()
